@@ -20,9 +20,51 @@ mod native {
         }
     }
 
+    /// a fixed, plain scenario for replaying index-logic counterexamples of walk_timed_path on the real code: the stock valid
+    /// train (brake set up as TrainSimBuilder does) on a chain of flat 4 km links, one per entry of the timed path; only the
+    /// initial clock and the scheduled times come from the counterexample
+    fn timed_walk(t0: f64, times: &[f64]) -> Value {
+        use crate::track::*;
+        let n = times.len() as u32;
+        let mk = |idx: u32| -> Link {
+            let mut speed_sets = std::collections::HashMap::new();
+            speed_sets.insert(TrainType::Freight, SpeedSet { speed_limits: vec![], speed_params: vec![], is_head_end: false });
+            Link {
+                idx_curr: LinkIdx::new(idx),
+                idx_prev: LinkIdx::new(if idx > 1 { idx - 1 } else { 0 }),
+                idx_next: LinkIdx::new(if idx < n { idx + 1 } else { 0 }),
+                length: 4000.0 * uc::M,
+                elevs: vec![Elev::new(0.0 * uc::M, 0.0 * uc::M), Elev::new(4000.0 * uc::M, 0.0 * uc::M)],
+                speed_sets,
+                ..Default::default()
+            }
+        };
+        let mut net = vec![Link::default()];
+        for i in 1..=n {
+            net.push(mk(i));
+        }
+        let mut ts = SpeedLimitTrainSim::valid();
+        ts.path_tpc = PathTpc::new(TrainParams::valid());
+        ts.fric_brake.ramp_up_time = 0.0 * uc::S;
+        ts.fric_brake.ramp_up_coeff = 0.6 * uc::R;
+        ts.state.time = t0 * uc::S;
+        let tp: Vec<LinkIdxTime> = times.iter().enumerate().map(|(i, &t)| LinkIdxTime::new(LinkIdx::new(i as u32 + 1), t * uc::S)).collect();
+        let r = std::panic::catch_unwind(std::panic::AssertUnwindSafe(|| ts.walk_timed_path(&net, &tp)));
+        match r {
+            Err(p) => json!({"kind": "panic", "step": 0, "msg": p.downcast_ref::<String>().cloned().or_else(|| p.downcast_ref::<&str>().map(|s| s.to_string())).unwrap_or_default()}),
+            Ok(Err(e)) => json!({"kind": "err", "step": 0, "msg": format!("{e:#}").chars().take(600).collect::<String>()}),
+            Ok(Ok(())) => json!({"kind": "ok", "step": 0, "recv": Value::Null, "ret": Value::Null}),
+        }
+    }
+
     impl FileEntry for SpeedLimitTrainSimTag {
         fn call(req: &Value) -> Value {
             match req["recv_ty"].as_str().unwrap_or("") {
+                "W_TimedWalk" => {
+                    let t0 = req["recv"]["t0"].as_f64().unwrap_or(0.0);
+                    let times: Vec<f64> = req["recv"]["times"].as_array().map(|a| a.iter().map(|x| x.as_f64().unwrap_or(0.0)).collect()).unwrap_or_default();
+                    timed_walk(t0, &times)
+                }
                 "SpeedLimitTrainSim" => run::<SpeedLimitTrainSim>(req, call),
                 t => json!({"kind": "unsupported", "msg": format!("no runner for {t}")}),
             }
